@@ -133,6 +133,9 @@ func checkC09(c *Ctx) {
 			continue
 		}
 		c.borrowKinds("C01", func() { c.c01Sibling(fo) }, "R09.4", sib+".Get", []string{"R01.2", "R01.5"}, "insert-key", "lookup-key", "release-key")
+		// … and the entry an owner releases is the one it registered: exactly one release at the end of the owner's own path, with the
+		// key and entry of that path (a release done by a shared dispatcher goroutine through a loop variable deletes another key's lock)
+		c.borrowKinds("C01", func() { c.c01Sibling(fo) }, "R09.4", sib+".Get:own-release", []string{"R01.4"}, "missing-release", "double-release")
 	}
 }
 
